@@ -201,6 +201,9 @@ def rule_optional_kinds(ctx: Ctx, repo: Repo) -> None:
         ("a class", c_cls("pkg.mod", "User")), ("a string", K("User")), ("Any", C_ANY), ("a generic", c_gen("List", C_INT)),
         ("a forward reference", AM.fwd("User")), ("a NewType", AM.newtype("UserId", "pkg.mod", C_INT)),
         ("a type variable", R("typevar", __name__=K("T"), __module__=K("pkg.mod"))), ("a generated TypedDict", c_anon_td({"a": C_INT})),
+        # generics that merely MENTION None among their parameters: not optional themselves
+        ("Dict[str, None]", c_gen("Dict", c_cls("builtins", "str"), C_NONE)), ("Generator[int, None, None]", c_gen("Generator", C_INT, C_NONE, C_NONE)),
+        ("Tuple[int, None]", c_gen("Tuple", C_INT, C_NONE)), ("Callable[[str], None]", c_gen("Callable", K((c_cls("builtins", "str"),)), C_NONE)),
     ]
     n_k = 0
     for what, anno in kinds:
